@@ -52,11 +52,17 @@ fn valid_fns() -> Vec<R1> {
     v.extend(V1_NORM);
     v.extend(V1_REG);
     v.push(R1::Fdiff(0.5));
+    // integer orders: the coefficients beyond lag d vanish, the warm-up law does not depend on d
+    v.push(R1::Fdiff(1.0));
+    v.push(R1::Fdiff(2.0));
     v
 }
 fn plain_fns() -> Vec<R1> {
     let mut v = V1_FEATURE.to_vec();
     v.push(R1::Fdiff(0.5));
+    // integer orders: the coefficients beyond lag d vanish, the warm-up law does not depend on d
+    v.push(R1::Fdiff(1.0));
+    v.push(R1::Fdiff(2.0));
     v
 }
 fn all2() -> Vec<R2> {
